@@ -42,7 +42,8 @@ def int_values(rng):
 
 def u64_values(rng):
     return [(0, "zero"), (1, "small"), (2 ** 32, "gt_u32"), (gen.I64_MAX, "i64_max"), (2 ** 53 + 1, "gt_2p53"),
-            (rng.randint(0, 10 ** 15), "rand")]
+            (rng.randint(0, 10 ** 15), "rand"), (gen.I64_MAX + 1, "gt_i64_max"), (gen.U64_MAX, "u64_max"),
+            (rng.randint(gen.I64_MAX + 2, gen.U64_MAX - 1), "gt_i64_max")]
 
 
 def float_values(rng):
